@@ -115,3 +115,13 @@ Theorem C15_byte_level_read_only_session_keeps_the_files : forall t n bk bv bh o
           flushed_disk fuel' cv' (cf2 Io.FVal) = Ok dv /\
           flushed_disk fuel' ch' (cf2 Io.FHtx) = Ok dh.
 Proof. exact read_only_session_keeps_the_files. Qed.
+
+(** ANY HISTORY OF READ-ONLY CALLS - lookups, membership tests, the length calls, full traversals and the statistics calls in any
+    order - performed with its real seeks and reads on files equal to [render] of a well-formed state leaves the three byte
+    strings exactly as they are (Io_wrun.v). *)
+From Aby Require Import Io_wrun.
+Theorem C15_byte_level_read_only_history_keeps_the_files : forall ops s sp m,
+  wf_state s -> represents s sp -> simg s m -> wsized s ops ->
+  Forall (fun o => match o with WCall o => match o with Put _ _ | Del _ => False | _ => op_wf (kt s) o end | _ => True end) ops ->
+  exists m' outs, wio_run m ops = Ok (m', outs) /\ Io.images m' = Io.images m.
+Proof. exact wio_readonly_history_keeps_the_files. Qed.
